@@ -24,9 +24,11 @@ pub open spec fn diff_pre<Old: Index<usize> + ?Sized, New: Index<usize> + ?Sized
     !d.failed() && box_pre(old, or, new, nr) && rely_pre(d, old, or, new, nr)
 }
 
-/// C08: the hook is failed exactly when the call returns an error, and that error is the hook's
+/// C08: the hook is failed exactly when the call returns an error, and that error is the hook's;
+/// on success its rely relation / replace capability are unchanged
 pub open spec fn err_post<D: DiffHook>(d0: D, d1: D, res: Result<(), D::Error>) -> bool {
-    hook_frame(d0, d1, res)
+    d1.failed() == res.is_err() && (res matches Err(e) ==> d1.last_err() == Some(e))
+    && (res.is_ok() ==> d1.relies() == d0.relies() && d1.rely_rel() == d0.rely_rel() && d1.accepts_replace() == d0.accepts_replace())
 }
 
 /// C01: on success the hook has received exactly a valid script segment for the box, then `tail`
